@@ -186,6 +186,14 @@ def phase_check(pids):
             # violation too; it is used only when nothing else covers the line.
             if len(cands) > 1 and "C01" in cands:
                 cands.remove("C01")
+            if cands == ["C01"]:
+                # A function that only the totality property touches: its
+                # values are not specified by any property.
+                restore(wt, m)
+                checked[k] = {"detected": None, "by": [["C01-only", 0, 0]]}
+                continue
+            anchored = [p for p in cands if p in m["props"]]
+            cands = anchored + [p for p in cands if p not in m["props"]][:max(0, 2 - len(anchored))]
             for pid in cands:
                 t0 = time.time()
                 r = sh([os.path.join(V, "check"), pid, "quick"], env=dict(ENV, VERIF_REPO=wt))
